@@ -53,7 +53,22 @@ pub fn ppreal(a: &[&str]) -> Option<String> {
         Some(p) => p,
     };
     let pre = a[1] == "pre";
+    macro_rules! with_isa {
+        ($module:path) => {{
+            use $module as m;
+            let f = m::Finder::with_pair(&needle, pair)?;
+            let ml = f.min_haystack_len();
+            (ml, std::panic::catch_unwind(std::panic::AssertUnwindSafe(|| {
+                if pre { f.find_prefilter(ph.slice()) } else { f.find(ph.slice(), pn.slice()) }
+            })))
+        }};
+    }
     let (minlen, r) = match a[0] {
+        #[cfg(memchr_verif_emu_neon)]
+        "neon" => with_isa!(memchr::arch::aarch64::neon::packedpair),
+        #[cfg(memchr_verif_emu_simd128)]
+        "simd128" => with_isa!(memchr::arch::wasm32::simd128::packedpair),
+        #[cfg(not(any(memchr_verif_emu_neon, memchr_verif_emu_simd128)))]
         "sse2" => {
             let f = memchr::arch::x86_64::sse2::packedpair::Finder::with_pair(&needle, pair)?;
             let m = f.min_haystack_len();
@@ -61,6 +76,7 @@ pub fn ppreal(a: &[&str]) -> Option<String> {
                 if pre { f.find_prefilter(ph.slice()) } else { f.find(ph.slice(), pn.slice()) }
             })))
         }
+        #[cfg(not(any(memchr_verif_emu_neon, memchr_verif_emu_simd128)))]
         "avx2" => {
             let f = memchr::arch::x86_64::avx2::packedpair::Finder::with_pair(&needle, pair)?;
             let m = f.min_haystack_len();
@@ -82,4 +98,11 @@ pub fn ppreal(a: &[&str]) -> Option<String> {
             Some(format!("ok {} steps={} loads=? oracle={} minlen={}", crate::util::fmt_opt(v), steps, oracle, minlen))
         }
     }
+}
+
+pub fn hex(b: &[u8]) -> String {
+    if b.is_empty() {
+        return "-".to_string();
+    }
+    b.iter().map(|x| format!("{:02x}", x)).collect()
 }
